@@ -39,6 +39,36 @@ func stubHashing() {
 	})
 }
 
+// a consensus state of each real client type, fields arbitrary
+func freshCons(kind int, tag string) exported.ConsensusState {
+	switch kind {
+	case 0:
+		cons := &tmtypes.ConsensusState{}
+		rt.FreshOpt(cons, tag+".tmcons", 1, false)
+		return cons
+	case 1:
+		cons := &ethtypes.ConsensusState{}
+		rt.FreshOpt(cons, tag+".ethcons", 1, false)
+		return cons
+	case 2:
+		cons := &bsctypes.ConsensusState{}
+		rt.FreshOpt(cons, tag+".bsccons", 1, false)
+		return cons
+	}
+	return &tsstypes.ConsensusState{}
+}
+
+// the pair a proposal carries: nothing at submission ties the type of the consensus state to the type of the client state
+// (ValidateBasic unpacks and validates the client state only), so the consensus state may be of any of the four types
+func freshProposalPair(kind int, tag string) (exported.ClientState, exported.ConsensusState) {
+	cs, cons := freshReal(kind, tag)
+	if consKind := rt.IntRange(tag+".consensusType", 0, 3); consKind != kind {
+		rt.Reach("consensus-state-of-another-client-type")
+		return cs, freshCons(consKind, tag+".foreign")
+	}
+	return cs, cons
+}
+
 // one client state + consensus state of each real client type, fields arbitrary
 func freshReal(kind int, tag string) (exported.ClientState, exported.ConsensusState) {
 	nilPtrs := rt.Tier() == 1
@@ -119,7 +149,7 @@ func VerifC15CreateClient() {
 	stubHashing()
 	ctx := rt.EmptyCtx()
 	k := keeper.NewKeeper(rt.Codec(), rt.StoreKey(host.StoreKey), paramtypes.Subspace{}, nil)
-	cs, cons := freshReal(rt.IntRange("clientType", 0, 3), "new")
+	cs, cons := freshProposalPair(rt.IntRange("clientType", 0, 3), "new")
 	knownC15(cs)
 	a, b := anys(cs, cons)
 	runProposal("create", k, ctx, &types.CreateClientProposal{Title: rt.Str("title"), Description: rt.Str("description"), ChainName: rt.Str("chainName"), ClientState: a, ConsensusState: b})
@@ -136,7 +166,7 @@ func VerifC15UpgradeClient() {
 	old, _ := freshReal(kind, "old")
 	assumeValidated(old)
 	k.SetClientState(ctx, chain, old)
-	cs, cons := freshReal(kind, "new")
+	cs, cons := freshProposalPair(kind, "new")
 	knownC15(cs)
 	a, b := anys(cs, cons)
 	runProposal("upgrade", k, ctx, &types.UpgradeClientProposal{Title: rt.Str("title"), Description: rt.Str("description"), ChainName: chain, ClientState: a, ConsensusState: b})
@@ -160,7 +190,7 @@ func VerifC15ToggleClient() {
 	assumeValidated(old)
 	knownC15(old) // ToggleClient initialises the OLD client (finding H2b), so its defects surface here too
 	k.SetClientState(ctx, chain, old)
-	cs, cons := freshReal(kind, "new")
+	cs, cons := freshProposalPair(kind, "new")
 	knownC15(cs)
 	a, b := anys(cs, cons)
 	runProposal("toggle", k, ctx, &types.ToggleClientProposal{Title: rt.Str("title"), Description: rt.Str("description"), ChainName: chain, ClientState: a, ConsensusState: b})
